@@ -551,6 +551,18 @@ func (s *BlockListSpec) decode(content *hcl.BodyContent, blockLabels []blockLabe
 		}
 	}
 
+	// Values that agree on a unified type can still differ in their exact
+	// types (a null of no particular type next to an object, for an
+	// attribute of any type), which the constructor below does not accept.
+	if !cty.CanListVal(elems) {
+		diags = append(diags, &hcl.Diagnostic{
+			Severity: hcl.DiagError,
+			Summary:  fmt.Sprintf("Unconsistent argument types in %s blocks", s.TypeName),
+			Detail:   "Corresponding attributes in all blocks of this type must be the same.",
+			Subject:  &sourceRanges[0],
+		})
+		return cty.DynamicVal, diags
+	}
 	return cty.ListVal(elems), diags
 }
 
@@ -838,6 +850,18 @@ func (s *BlockSetSpec) decode(content *hcl.BodyContent, blockLabels []blockLabel
 		}
 	}
 
+	// Values that agree on a unified type can still differ in their exact
+	// types (a null of no particular type next to an object, for an
+	// attribute of any type), which the constructor below does not accept.
+	if !cty.CanSetVal(elems) {
+		diags = append(diags, &hcl.Diagnostic{
+			Severity: hcl.DiagError,
+			Summary:  fmt.Sprintf("Unconsistent argument types in %s blocks", s.TypeName),
+			Detail:   "Corresponding attributes in all blocks of this type must be the same.",
+			Subject:  &sourceRanges[0],
+		})
+		return cty.DynamicVal, diags
+	}
 	return cty.SetVal(elems), diags
 }
 
